@@ -146,12 +146,14 @@ structure St where
   failed : Bool := false
   nextId : Nat := 0
   hist : List (List Exec) := []         -- closed segments
+  down : List Node := []                -- nodes that cannot be reached
 
 inductive Ev where
   | put (bid : Nat) (c : Cmd) (n : Node)
   | dispatch (bid : Nat)
   | srv (n : Node) (c : Cmd) (asking : Bool) (o : Out)
   | recv (bid : Nat) (ok : Bool)
+  | nodeDown (n : Node)   -- node `n` becomes unreachable (the slot table may still name it)
   | unsent (c : Cmd)      -- after a failure: `c` never left the client (its node object was closed)
   | mig (m : Mig)
   | snapshot
@@ -201,7 +203,11 @@ def stepChase (s : St) (n : Node) (c : Cmd) (asking : Bool) (o : Out) : Except S
   | none => .error "unexpected-request"
   | some (b, r, a) =>
     if ¬ (∀ y ∈ b, y.origin ≠ r.origin) then .error "chase-order"
-    else if ¬ (r.target = n ∧ r.asking = asking) then .error "chase-target"
+    -- the redirect target, or — when the target cannot be reached — a probe of
+    -- another node without ASKING (cluster.go handleConnTimeout); the probed node
+    -- answers by the same rules, so it executes only if it serves the key
+    else if ¬ ((r.target = n ∧ r.asking = asking) ∨ (r.target ∈ s.down ∧ asking = false)) then
+      .error "chase-target"
     else if ¬ (o = .err ∨ o = answer slotOf s.sv n c.key asking) then .error "answer"
     else match o with
       | .exec => .ok { s with redir := b ++ a, log := s.log ++ [mkExec slotOf s.sv c n asking] }
@@ -237,7 +243,7 @@ def stepUnsent (s : St) (c : Cmd) : Except String St :=
 def stepRestart (s : St) : Except String St :=
   if s.failed = false then .error "restart-without-failure"
   else if s.todo ≠ [] then .error "restart-before-drain"
-  else .ok { sv := s.sv, slots := s.slots, snap := s.snap, hist := s.hist ++ [s.log] }
+  else .ok { sv := s.sv, slots := s.slots, snap := s.snap, hist := s.hist ++ [s.log], down := s.down }
 
 def step (s : St) : Ev → Except String St
   | .put bid c n => stepPut slotOf s bid c n
@@ -245,6 +251,7 @@ def step (s : St) : Ev → Except String St
   | .srv n c asking o => stepSrv slotOf s n c asking o
   | .recv bid ok => stepRecv s bid ok
   | .unsent c => stepUnsent s c
+  | .nodeDown n => .ok { s with down := n :: s.down }
   | .mig m =>
     match applyMig slotOf s.sv m with
     | some sv' => .ok { s with sv := sv' }
